@@ -102,8 +102,8 @@ CLAIMED = {
    technique='Lean 4 theorems over the token-filter and strip-comments models + oracle by re-lexing + differential correspondence',
    design='§7 C08'),
  'C10': dict(
-   text='Theorems (tree level): strip_whitespace normal form (every list a fixed point of the default pass; no whitespace after ( / before ) in a parenthesis), IdentifierList fixed point iff no comma is preceded by two whitespace tokens (theorem + decided counterexample = KF-C10-3), use_space_around_operators normal form and fixed point, no output line ends in a blank (serializer), and the reindent clause: in every list _process_default handles and in the statement list every selected clause keyword is directly preceded by the nl() token with the exact indentation (hypothesis noBreakBefore). Tie: S-TREEF, S-FMT; oracle on the real code for the text-level reading incl. multi-word keywords with unusual inner whitespace.',
-   note='Partial: lift of the reindent clause through _process_identifierlist/_case/_parenthesis and through the serializer regex is oracle-checked. One defect repaired (f036566); known findings KF-C10-2..5.',
+   text='Theorems (tree level): strip_whitespace normal form (every list a fixed point of the default pass; no whitespace after ( / before ) in a parenthesis), IdentifierList fixed point iff no comma is preceded by two whitespace tokens (theorem + decided counterexample = KF-C10-3), use_space_around_operators normal form and fixed point, no output line ends in a blank (serializer), and the reindent clause for the WHOLE output tree of ReindentFilter.process (reindent_clause_whole_tree): at every nesting level the filter looks into — lifted through _process_where/_parenthesis/_function/_identifierlist/_case and the recursion — every selected split keyword, and the WHERE of every Where group, is directly preceded by an nl() token, under the decidable side conditions liftOK (per list noBreakBefore; no split keyword as item of an IdentifierList = KF-C10-8; Case needs nothing extra: case_break_targets_are_when_else). Tie: S-TREEF, S-FMT, DOMAIN(liftok) (liftOK evaluated by the driver decides whether a clause keyword inside a line is a violation); oracle on the real code for the text-level reading incl. multi-word keywords with unusual inner whitespace.',
+   note='Partial: the weak form of the reindent clause (a comment line in front of a clause keyword) is a theorem per list only (rSplitKwds_lineBreak), its lift through the recursion, the serializer regex and the text-level reading are oracle-checked. One defect repaired (f036566); known findings KF-C10-2..8.',
    technique='Lean 4 theorems over the filter models + oracle on the real code + differential correspondence',
    design='§7 C10'),
  'C14': dict(
